@@ -53,6 +53,11 @@ CHECKS = {
     technique='runtime monitoring: attacker workload (independent writer recomputes Manifests up to level k) against every lookup/verify API of a fresh real loader, with a ChainInvariant monitor re-deriving from disk that each loaded sub-Manifest matches a loaded parent entry',
     text='For every chain depth (1..3 complete in quick, 1..5 in thorough), tamper kind (file or DIST changed/added/removed), attacker level k and API, the real loader must raise ManifestMismatch naming the first broken link and never return a result; after every call loaded_manifests is checked against the bytes on disk. A variant makes a link unverifiable (only uncomputable hash names, equal sizes): nothing below it may be trusted.',
     note='Trusted: independent writer/reader, one-shot hashlib. Hash collisions are out of scope. Update mode (which loads unverified by design) is not covered here.'),
+ 'C06': dict(
+    category='fault_enumeration', design='3 C06',
+    technique='runtime fault injection: Python-level failpoints on every file-system call class (counting run, then one execution per class x call index x errno), kernel-level strace -e inject on a sample, genuine EACCES as uid 65534; WriteAudit (sys.addaudithook) + tree snapshots for the update half',
+    text='For each generated tree (consistent, or consistent plus one stray) and each of strict verify, keep-going verify and the scan phase of update, every single placement of an injected OSError at os.open/open/os.stat/os.fstat/os.scandir/scandir iteration/binary read/text read is executed: the result must never be success, and a failing update must leave no write event and a byte-identical tree. A strace layer injects the same faults in the kernel on a sample; a privilege-dropped child meets real mode-000 files, directories and Manifests.',
+    note='Single faults only. ENOENT/ENXIO/EOPNOTSUPP excluded. Stat-family faults injected at the kernel boundary are not decidable (CPython io.open ignores its own fstat failures) and only counted. Errno set of ten values; quick uses all ten for call classes with <= 16 calls and three otherwise.'),
 }
 
 def main():
